@@ -45,6 +45,19 @@ def gen(rng, tier):
         trajs, dtypes, tag = G.narrow_set(rng, rng.choice(['many-mixed', 'many-unsigned']))
         yield {'trajs': trajs, 'lag': rng.choice([1, 2]), 'S': [trajs[0][0]], 'F': [trajs[1][0] if trajs[1][0] != trajs[0][0] else trajs[1][1]],
                'perm': [1, 0, 2], 'cut': [1, len(trajs[1]) // 2], 'alpha': tag, 'dtypes': dtypes, 'light': True}
+    for _ in range(G.budget(6) if tier == 'quick' else 120):      # several hundred trajectories / zero-length members / many states
+        trajs, tag = G.size_classes(rng, lag=2, sticky=0.7)
+        while tag == 'long':
+            trajs, tag = G.size_classes(rng, lag=2, sticky=0.7)
+        present = sorted({v for t in trajs for v in t})
+        if len(present) < 2:
+            continue
+        nt = len(trajs)
+        perm = list(range(nt))
+        rng.shuffle(perm)
+        k = max(range(nt), key=lambda i: len(trajs[i]))
+        yield {'trajs': trajs, 'lag': rng.choice([1, 2, 3]), 'S': [present[0]], 'F': [present[-1]], 'perm': perm,
+               'cut': [k, rng.randint(0, len(trajs[k]))], 'alpha': 'size-' + tag, 'light': True, 'nosingle': True}
     for _ in range(1 if tier == 'quick' else 4):      # a trajectory of more than 2^16 frames
         labs, akind = G.alphabet(rng, k=3)
         long_t = G.traj(rng, labs, rng.randint(66000, 70000), sticky=0.7)
@@ -91,7 +104,7 @@ def impl(case):
 
     def A(ts, idx=None):
         if not dts:
-            return [np.array(t) for t in ts]
+            return [np.array(t, dtype=np.int64) for t in ts]
         idx = idx if idx is not None else range(len(ts))
         return [np.array(t, dtype=DTYPES[dts[i % len(dts)]]) for t, i in zip(ts, idx)]
     trajs = case['trajs']
@@ -100,7 +113,7 @@ def impl(case):
            'perm': battery(A([trajs[i] for i in case['perm']], case['perm']), case['lag'], case['S'], case['F'], which=W),
            'cut': battery(A(_cutset(case), _cutidx(case)), case['lag'], case['S'], case['F'], which=['emm']),
            'single': [battery(A([t], [i]), case['lag'], case['S'], case['F'], which=['coring', 'wt', 'paths'])
-                      for i, t in enumerate(trajs)]}
+                      for i, t in enumerate(trajs)] if len(trajs) <= 12 else None}
     # one StateTraj object shared by a sequence of analyses (coring first): later results on the same
     # object must still be those of the original trajectories
     import msmhelper as mh
@@ -180,7 +193,12 @@ def judge(case, ibc, answers):
                   'taken as independent pieces %s' % (C.short(lck.get('md'), 120), C.short(mck.get('md'), 120)))
         # per-trajectory outputs: concatenation of the single-trajectory results
         singles = r['single']
-        if all('err' not in s['coring'] for s in singles):
+        has_single = singles is not None
+        if singles is None:
+            singles = []
+        if not has_single:
+            pass
+        elif all('err' not in s['coring'] for s in singles):
             exp = [s['coring']['trajs'][0] for s in singles]
             if b['coring'].get('trajs') != exp:
                 P('impl-vs-spec', 'coring of the set %s != per-trajectory coring %s' % (C.short(b['coring'], 120), C.short(exp, 120)))
@@ -192,7 +210,7 @@ def judge(case, ibc, answers):
         def ok_single(s, name):
             # a single trajectory may lack the basin states: that call is rejected, contributes nothing
             return s[name].get('v' if name == 'wt' else 'd') if 'err' not in s[name] else None
-        if 'err' not in b['wt']:
+        if has_single and 'err' not in b['wt']:
             exp, complete = [], True
             for t, s in zip(case['trajs'], singles):
                 if 'err' in s['wt']:
